@@ -699,8 +699,7 @@ func sigClasses(vals []*big.Rat, classes []string, exp expect) string {
 	if kinds["float"] {
 		k = "float"
 	}
-	_ = k // operand kinds are reported in the message only: cells split by kind do not saturate
-	return "mag=" + []string{"small", "big", "big"}[mag]
+	return "mag=" + []string{"small", "big", "big"}[mag] + " kinds=" + k
 }
 
 func exec(x *fw.Ctx, c Case) {
